@@ -298,6 +298,18 @@ def writeMembership (labels : List String) (m : Tens Float) (maxL2 : Float) (r :
   (List.range m.R).map fun k =>
     Tok.s (labels.getD k "?") :: (List.range m.C).map fun q => Tok.f (m.get k q 0)
 
+/-- app_utils.cpp:123-143 `write_info_file`: header lines (number of realizations, maximum likelihood,
+duration, seed, column titles), then one row per realization: index, iterations, reason, likelihood -/
+def writeInfo (r : Nat) (maxL2 : Float) (seed : Int) (iters : List Nat) (reasons : List String)
+    (L2s : List Float) : List (List Tok) :=
+  [[.s "#", .s "Number", .s "of", .s "realization", .s "=", .n r],
+   [.s "#", .s "Maximum", .s "Likelihood", .s "=", .f maxL2],
+   [.s "#", .s "Duration", .s "(s)", .s "=", .s "-"],
+   [.s "#", .s "Seed", .s "=", .s (toString seed)],
+   [.s "#", .s "real", .s "num_iters", .s "term_reason", .s "L2"]] ++
+  (List.range iters.length).map fun i =>
+    [.n i, .n (iters.getD i 0), .s (reasons.getD i "?"), .f (L2s.getD i 0.0)]
+
 def showLines (ls : List (List Tok)) : List String :=
   ls.zipIdx.map fun (l, i) => s!"l{i}=" ++ ",".intercalate (l.map Tok.show)
 
@@ -343,6 +355,17 @@ def opWmem : P (List String) := do
   let labels ← many N tok
   let d ← flts
   pure (showLines (writeMembership labels ⟨N, K, 1, d.toArray⟩ maxL2 r))
+
+def opWinfo : P (List String) := do
+  let r ← nat; let seed ← int; let n ← nat
+  let mut iters : Array Nat := #[]
+  let mut reasons : Array String := #[]
+  let mut l2 : Array Float := #[]
+  for _ in [0:n] do
+    iters := iters.push (← nat)
+    reasons := reasons.push (← tok)
+    l2 := l2.push (← flt)
+  pure (showLines (writeInfo r (maxL2 l2.toList) seed iters.toList reasons.toList l2.toList))
 
 /-- `cli <nargs> args… <adjbytes> <affbytes|->` → the call record -/
 def opCli : P (List String) := do
